@@ -94,6 +94,14 @@ func (sc *SpecializationCache) InvalidateSpecializations(routeName string) {
 	}
 }
 
+// Clear removes the specializations of every route
+func (sc *SpecializationCache) Clear() {
+	sc.mutex.Lock()
+	defer sc.mutex.Unlock()
+
+	sc.specializations = make(map[string][]*TypeSpecialization)
+}
+
 // RecordMiss records a specialization miss
 func (sc *SpecializationCache) RecordMiss(routeName string) {
 	sc.mutex.Lock()
